@@ -31,7 +31,7 @@ def threads_trace(ctx):
         ctx.violation("C08:threads:compile", "the thread driver sharing &Predictor between threads does not compile: " + str(e)[-400:],
                       {"kind": "compile", "crate": "vpt"}, cls="C08:compile")
         return
-    nthreads, iters = (8, 40) if ctx.quick else (16, 400)
+    nthreads, iters = (8, 20) if ctx.quick else (16, 160)   # x 10 fresh predictors per run
     out = os.path.join(vlib.WORK, "record", "C08-threads.ndjson")
     os.makedirs(os.path.dirname(out), exist_ok=True)
     p = subprocess.run([binp, str(nthreads), str(iters), str(ctx.seed), out], env=vlib.cargo_env(),
